@@ -80,7 +80,8 @@ def check_hooks(repo, rep):
     rid = "C06-R2"
     rep.rule(rid, "each internal handler calls exactly its own user hook exactly once on every non-raising path "
                   "(on_open_position / on_close_position / on_increased_position / on_reduced_position), and "
-                  "Position._on_executed_order notifies the strategy exactly once, after the position mutators")
+                  "Position._on_executed_order notifies the strategy after every change of the position and before the next one (an order "
+                  "that flips the position closes one trade and opens another: two notifications)")
     smod = repo.module(STRAT)
     scls = repo.cls(STRAT, "Strategy")
     hooks = {"_on_open_position": "on_open_position", "_on_close_position": "on_close_position",
@@ -102,18 +103,34 @@ def check_hooks(repo, rep):
     pcls = repo.cls(POSITION, "Position")
     fn = repo.func(POSITION, "Position._on_executed_order")
     keep = {"_on_updated_position", "_mutating_open", "_mutating_close", "_mutating_increase", "_mutating_reduce"}
-    cfg = Cfg(call=lambda label, node: ("call", SL.last(label)) if SL.last(label) in keep else None, loop_unroll=1)
+    cfg = Cfg(call=lambda label, node: ("call", SL.last(label)) if SL.last(label) in keep else None,
+              guard=lambda t: "strategy" if norm(t) == "self.strategy" else ("live" if "is_livetrading" in norm(t) else None), loop_unroll=1)
     n = 0
     for evs, ex in Tracer(repo, cfg).block(fn.body, (pmod, pcls), 0):
         if ex == RAISE:
             continue
+        if any(e[0] == "guard" and e[1] == "live" and e[2] for e in evs):
+            continue            # the live-trading branches (position kept in step with the exchange's stream) are out of scope
+        outcomes = {e[2] for e in evs if e[0] == "guard" and e[1] == "strategy"}
+        if len(outcomes) > 1:
+            continue            # the strategy is either attached or not: mixed answers on one path are infeasible
         nm = [e[1] for e in evs if e[0] == "call"]
-        # (paths guarded by `if self.strategy` fork; the abstract runs of C03 pin the strategy present)
-        cnt = nm.count("_on_updated_position")
-        if cnt > 1 or (cnt == 1 and nm[-1] != "_on_updated_position"):
-            rep.violation(rid, "_on_executed_order|notify", f"Position._on_executed_order notifies the strategy {cnt} times / before a mutator: {nm}")
+        present = outcomes == {True}
+        if present:
+            # every change of the position is an event the strategy is told about before the next one happens: an order that flips
+            # the position closes one trade and opens another - two events, two notifications
+            bad = None
+            for i, x in enumerate(nm):
+                if x.startswith("_mutating_") and (i + 1 >= len(nm) or nm[i + 1] != "_on_updated_position"):
+                    bad = f"`{x}` is not followed by the notification of the strategy"
+                if x == "_on_updated_position" and (i == 0 or not nm[i - 1].startswith("_mutating_")) and any(y.startswith("_mutating_") for y in nm):
+                    bad = "the strategy is notified without a change of the position before it"
+            if bad:
+                rep.violation(rid, "_on_executed_order|notify", f"Position._on_executed_order: {bad} on the path {nm}")
+        elif "_on_updated_position" in nm:
+            rep.violation(rid, "_on_executed_order|notify", f"Position._on_executed_order notifies a strategy that is not attached: {nm}")
         n += 1
-        rep.instance(rid, f"_on_executed_order|{' '.join(nm)}")
+        rep.instance(rid, f"_on_executed_order|{'S' if present else '-'}|{' '.join(nm)}")
     rep.floor(rid, 8)
 
 
